@@ -99,6 +99,27 @@ def run(tier, scratch, t0, replay=None):
             PY2_FILES.extend(it["pyc"] for it in b["items"] if os.path.exists(it["pyc"]) and os.path.getsize(it["pyc"]) < 12000)
     n = 480 if quick else 20000
     hists = []
+    # whatever the seed: listings of two files whose constant tuples are equal but not the same constants, in both orders and
+    # across versions (state keyed by equality would show one file's constants in the other's listing)
+    eq = {}
+    for bb in D.build_batches(scratch, [v for v in [(2, 7), (3, 6), (3, 9), (3, 12)] if v in K.available_interps()], tier, "C18-eq", n_stdlib=0,
+                              n_gen=0, batch=10, with_corpus=False, must_templates=["t_eq_tuples_a", "t_eq_tuples_b"]):
+        tf, err = K.run_truth(bb["v"], "compile", {"items": bb["items"], "sections": [], "mode": "compile"}, bb["workdir"], bb["tag"] + "eq")
+        for it in bb["items"]:
+            if os.path.exists(it["pyc"]):
+                eq.setdefault(bb["v"], {})["a" if "tuples_a" in it["pyc"] else "b"] = it["pyc"]
+    pairs = []
+    for v, d in sorted(eq.items()):
+        if "a" in d and "b" in d:
+            pairs += [(d["a"], d["b"]), (d["b"], d["a"])]
+    vs_ = sorted(eq)
+    for v1, v2 in zip(vs_, vs_[1:]):
+        if "a" in eq[v1] and "b" in eq[v2]:
+            pairs += [(eq[v1]["a"], eq[v2]["b"]), (eq[v2]["b"], eq[v1]["a"])]
+    for first, second in pairs:
+        for fmt in ("classic", "extended"):
+            hists.append({"ops": [{"op": "disassemble_file", "file": first, "fmt": fmt}],
+                          "probe": {"op": "disassemble_file", "file": second, "fmt": fmt}})
     # whatever the seed: pairs of *different* Python 2 payloads one after the other, and a failed load before a good one
     for i in range(0, min(len(PY2_FILES) - 1, 24 if quick else 200), 2):
         a, b2 = PY2_FILES[i], PY2_FILES[-1 - i]
